@@ -111,7 +111,7 @@ func TestC32(t *testing.T) {
 		"Oracle: transcription of the statement (admissibility of acceptance). Non-trivial: successor rejected for a single reason other than the header, or an accepted update with a replaced voter or root.")
 	defer rec.Flush(t)
 	rec.Assume("payload validity is decided by TRC.Validate here (checked against a reference in C33)", "CMS library and ECDSA are trusted")
-	rec.Require("accepted_regular", "accepted_sensitive", "accepted_base", "rejected", "replaced_regular_voter", "replaced_root", "new_voter", "too_few_votes", "duplicate_vote", "wrong_class_vote", "mixed_votes", "vote_out_of_range",
+	rec.Require("certificates_reordered", "accepted_regular", "accepted_sensitive", "accepted_base", "rejected", "replaced_regular_voter", "replaced_root", "new_voter", "too_few_votes", "duplicate_vote", "wrong_class_vote", "mixed_votes", "vote_out_of_range",
 		"missing_vote_signature", "missing_new_voter_signature", "missing_root_ack", "wrong_key_signature", "header_base", "header_serial", "header_trust_reset", "regular_votes_for_sensitive_change", "base_missing_signature", "base_with_predecessor")
 	p := pool()
 	rapid.Check(t, func(rt *rapid.T) {
@@ -223,6 +223,11 @@ func TestC32(t *testing.T) {
 
 		// ---------------- successor
 		sm := pm.clone()
+		if rapid.Bool().Draw(rt, "reorderCertificates") {
+			// the successor may list its certificates in any order; votes refer to predecessor positions
+			sm.order = rapid.Permutation(order).Draw(rt, "successorCertOrder")
+			labels["certificates_reordered"] = true
+		}
 		free := func(m map[int]string) []int {
 			var out []int
 			for a := 0; a < 6; a++ {
